@@ -12,6 +12,7 @@ Inductive iout :=
 | IFitted (content : dict) (t_train : tout) (t_known : tout).
 
 Record c18case := mkC18 {
+  k_wf : bool;                   (* generated as a forest of the documented shape *)
   k_levels : list dict;          (* chained_orders, bottom level first: parent -> members *)
   k_col : list val;              (* training column: VStr / VNaN *)
   k_mf : Z * Z;                  (* min_freq as exact dyadic *)
@@ -71,6 +72,7 @@ Definition expect_transform (m : vmap) (col : list val) : tout :=
   else TAssert.
 
 Definition C18_b (c : c18case) : bool :=
+  negb (k_wf c) ||
   match init (k_levels c) with
   | Ok ch =>
       let mf := f_of_dyadic (fst (k_mf c)) (snd (k_mf c)) in
